@@ -6,6 +6,7 @@ cd "$(dirname "$0")"
 export CARGO_NET_OFFLINE=true
 mkdir -p .build evidence replays
 ( cd replay && RUSTFLAGS="--cfg exmex_verif" CARGO_TARGET_DIR=../.build/native-target cargo build --offline --quiet ) || echo "setup: native replay build failed (checks will retry)"
+( cd replay && RUSTFLAGS="--cfg exmex_verif" CARGO_TARGET_DIR=../.build/native-target cargo build --release --offline --quiet ) || echo "setup: native replay build (release profile) failed (checks will retry)"
 ( cd kani && RUSTFLAGS="--cfg exmex_verif" cargo kani -Z stubbing --only-codegen --target-dir ../.build/kani-target >/dev/null 2>&1 ) || echo "setup: kani pre-build failed (checks will retry)"
 verus --version >/dev/null 2>&1 || echo "setup: verus not on PATH"
 exit 0
